@@ -170,6 +170,13 @@ def run_case(ck, desc):
         ck.count("constant_schedule_pairs")
         if ev3 is None or not (np.array_equal(ev3["pp"], pp1) and np.array_equal(rf3, rf1) and (rfd1 is None or np.array_equal(rfd3, rfd1, equal_nan=True))):
             ck.violation("constant-schedule = scalar setting", {"max_abs_field_diff": float(np.max(np.abs(ev3["pp"] - pp1))) if ev3 is not None else None}, desc)
+        # ... also when the object was CONSTRUCTED with another frac-face pressure (the library's own
+        # fitting code puts the initial pressure in that slot and passes the schedule to simulate)
+        for p_ctor in (desc["p_i"], 0.5 * (desc["p_f"] + desc["p_i"])):
+            res4, ev4, rf4, rfd4, _, _ = _run(dict(desc, p_f=p_ctor, reused=False), t.copy(), np.full(nt, desc["p_f"]))
+            ck.count("constant_schedule_pairs_other_constructor_pressure")
+            if ev4 is None or not (np.array_equal(ev4["pp"], pp1) and np.array_equal(rf4, rf1) and (rfd1 is None or np.array_equal(rfd4, rfd1, equal_nan=True))):
+                ck.violation("constant-schedule = scalar setting", {"constructed_with": p_ctor, "schedule_value": desc["p_f"], "max_abs_field_diff": float(np.max(np.abs(ev4["pp"] - pp1))) if ev4 is not None else None}, desc)
         # wrong schedule length is rejected
         for special in (1, 0):
             if special != nt:
